@@ -341,6 +341,20 @@ def atom_range(a):
         return None
     if k == "len":
         return (0, 2**63 - 1)
+    if k == "saturating" and a[1] == "Sub":
+        hi = None
+        try:
+            la = lin(a[2][0])
+            hi = la.c
+            for x, c in la.m.items():
+                r = atom_range(x)
+                if r is None or c < 0 or r[1] is None:
+                    hi = None
+                    break
+                hi += c * r[1]
+        except Exception:
+            hi = None
+        return (0, hi)
     if k in ("sizeofval", "sizeof", "alignof"):
         return (0, 2**63 - 1)
     if k == "align_offset":
@@ -460,6 +474,12 @@ def entails(facts, need):
         sw = ("cmp", SWAP[need[1]], need[3], need[2])
         if sw in facts:
             return ("same", [facts.index(sw)])
+    if need[0] == "cmp" and need[1] == "Ne":
+        for op in ("Lt", "Gt"):
+            j = entails(facts, ("cmp", op, need[2], need[3]))
+            if j is not None:
+                return j
+        return None
     fes = []
     idx = []
     for i, f in enumerate(facts):
@@ -476,3 +496,87 @@ def entails(facts, need):
             return None
         used += [idx[i] for i in j[1]]
     return ("lin", sorted(set(used)))
+
+
+# ------------------------------------------------------------------------- normal forms for matching
+def N(t):
+    """compact positional normal form: no zero-extensions, field = (base, index), arg = index,
+    calls without site tags.  Used to compare terms with expected shapes."""
+    if not isinstance(t, tuple) or not t:
+        return t
+    k = t[0]
+    if k == "zext":
+        return N(t[1])
+    if k == "fld":
+        b = N(t[1])
+        # `x?`:  Try::branch(x) -> Continue(v) / Break(residual)
+        if t[2] == 0 and b[0] == "dc" and b[1][0] == "call" and "Try>::branch" in str(b[1][1]) and len(b[1][2]) == 1:
+            return ("try_ok" if b[2] == 0 else "try_residual", b[1][2][0])
+        return ("fld", b, t[2])
+    if k == "arg":
+        return ("arg", t[1])
+    if k == "call":
+        a = tuple(N(x) for x in t[2])
+        if "FromResidual" in str(t[1]) and len(a) == 1 and a[0][0] == "try_residual":
+            return ("try_err", a[0][1], t[1])
+        return ("call", t[1], a)
+    if k == "discr":
+        b = N(t[1])
+        if b[0] == "call" and "Try>::branch" in str(b[1]):
+            return ("try_discr", b[2][0])
+        return ("discr", b)
+    if k == "bin":
+        return ("bin", t[1], N(t[2]), N(t[3]))
+    if k == "cast":
+        return ("cast", t[1], N(t[2]), t[3])
+    return tuple(N(x) if isinstance(x, tuple) else x for x in t)
+
+
+def fld(base, *idx):
+    for i in idx:
+        base = ("fld", base, i)
+    return base
+
+
+def deref(x):
+    return ("deref", x)
+
+
+def arg(i):
+    return ("arg", i)
+
+
+def ptr_norm(t):
+    """(base term, byte-offset Lin) of a pointer term built from as_ptr/add/sub/offset/cast"""
+    off = Lin(0)
+    t = strip(t)
+    while isinstance(t, tuple) and t and t[0] == "ptrop":
+        op, base, n, es = t[1], t[2], t[3], t[4]
+        if not isinstance(es, int):
+            return None
+        d = lin(n).scale(es)
+        off = off.add(d, -1 if op == "sub" else 1)
+        t = strip(base)
+    return t, off
+
+
+def cn(key):
+    """call name without generic argument groups: core::option::Option::<X>::ok_or::<E> -> core::option::Option::ok_or"""
+    out, depth = [], 0
+    i = 0
+    key = str(key)
+    while i < len(key):
+        c = key[i]
+        if c == "<" and (i >= 2 and key[i - 2:i] == "::"):
+            depth += 1
+            if depth == 1 and out[-2:] == [":", ":"]:
+                out = out[:-2]
+        elif depth > 0:
+            if c == "<":
+                depth += 1
+            elif c == ">" and key[i - 1] != "-":
+                depth -= 1
+        else:
+            out.append(c)
+        i += 1
+    return "".join(out)
